@@ -692,7 +692,10 @@ def extract_block(fn, pick, overrides=None, merge=True, name="block", extra_args
     if overrides is None:
         overrides = core.install_builtins()
     fd, fn = parse_fn(fn)
-    stmts = list(pick(fd))
+    try:
+        stmts = list(pick(fd))
+    except (IndexError, KeyError, AttributeError, TypeError) as ex:
+        raise core.StructureMismatch(f"{fn.__qualname__}: the statements this harness cuts out were not found ({type(ex).__name__}: {ex})")
     params = [a.arg for a in fd.args.args]
     assigned = set(params)
     for n in ast.walk(fd):
@@ -747,7 +750,7 @@ class _Unset:
     """placeholder for a local the caller did not provide: any use is a harness error"""
 
     def _boom(self, *a, **k):
-        raise EngineError("extracted block read a local that the harness did not provide")
+        raise core.StructureMismatch("extracted block read a local that the harness did not provide")
     __getattr__ = __add__ = __radd__ = __sub__ = __rsub__ = __mul__ = __rmul__ = __lt__ = __le__ = __gt__ = __ge__ = _boom
     __getitem__ = __setitem__ = __call__ = __bool__ = __index__ = __iter__ = __len__ = __floordiv__ = __mod__ = __neg__ = _boom
 
@@ -765,4 +768,12 @@ UNSET = _Unset()
 def call_block(f, **kw):
     """call an extracted block with keyword state; names the block mentions but the caller did not give are
     passed as UNSET (reading one is a harness error, overwriting it is fine)"""
-    return f(**{a: kw.get(a, UNSET) for a in f._args})
+    out = f(**{a: kw.get(a, UNSET) for a in f._args})
+    return _Out(out) if isinstance(out, dict) else out
+
+
+class _Out(dict):
+    """locals written by a block; asking for a name the block does not assign is a structure mismatch"""
+
+    def __missing__(self, key):
+        raise core.StructureMismatch(f"the extracted block does not assign {key!r}")
